@@ -33,6 +33,8 @@ type PropDef struct {
 
 var registry = map[string]*PropDef{}
 
+var debugLog = os.Getenv("VERIF_DEBUG") != ""
+
 func register(d *PropDef) *PropDef { registry[d.ID] = d; return d }
 
 // TraceFile is the replay format.
@@ -182,6 +184,25 @@ func (c *caseRunner) apply(a world.Action) *world.StepResult {
 		if res.Skipped != "" {
 			c.st.Skipped++
 		}
+		if debugLog {
+			if res.Skipped != "" {
+				fmt.Printf("  [%d] %s SKIPPED: %s\n", len(c.w.Trace)-1, a.String(), res.Skipped)
+			} else if res.Block == nil {
+				fmt.Printf("  [%d] %s\n", len(c.w.Trace)-1, a.String())
+			} else {
+				fmt.Printf("  [%d] block h=%d t=%s\n", len(c.w.Trace)-1, res.Block.Height, res.Block.Time.Format("15:04:05"))
+				for _, tx := range res.Txs {
+					fmt.Printf("      tx[%d] %s code=%d %s\n", tx.Idx, tx.Action.Kind, tx.Code, tx.Log)
+				}
+				for _, g := range res.Gov {
+					fmt.Printf("      gov[%d] %s %s %s\n", g.Idx, g.Action.Kind, g.Status, g.Reason)
+				}
+				for _, id := range c.w.ConsumerIDs() {
+					co := c.w.ObserveConsumer(id)
+					fmt.Printf("      consumer %s phase=%s owner=%s topN=%d optedin=%d set=%d\n", id, co.Phase, c.w.OwnerName(co.Owner), co.Shaping.Top_N, len(co.OptedIn), len(co.Set))
+				}
+			}
+		}
 		if res.Block != nil {
 			c.st.Blocks++
 			for _, tx := range res.Txs {
@@ -265,6 +286,11 @@ func TestReplay(t *testing.T) {
 	b, err := os.ReadFile(path)
 	if err != nil {
 		t.Fatalf("HARNESS: read replay: %v", err)
+	}
+	var pf PureFail
+	if json.Unmarshal(b, &pf) == nil && pf.Pure != "" {
+		replayPure(t, pf)
+		return
 	}
 	var tf TraceFile
 	if err := json.Unmarshal(b, &tf); err != nil {
